@@ -111,6 +111,8 @@ def apply(it, fn, args, dest_ty, term, caller, depth):
                     return Int(32, False, val=w - v.bit_length())
                 return Int(32, False, val=(v & -v).bit_length() - 1 if v else w)
     # ---- intrinsics / inherent int methods
+    if path.startswith("core::num::<impl ") and name == "pow" and len(args) == 2 and all(isinstance(a, Int) and a.is_conc() for a in args):
+        return args[0].like(val=pow(args[0].val, args[1].val))
     if path in ("core::intrinsics::ctpop",):
         return popcount(it, args[0])
     if path == "core::intrinsics::saturating_sub" or rpath.endswith("::saturating_sub") and isinstance(args[0], Int):
@@ -607,6 +609,19 @@ def iter_model(it, fn, name, args, dest_ty, term, caller, depth):
                     break
                 out.append(item.fields[0])
             return VecV(out)
+        if name == "sum" and args and isinstance(args[0], IterV):
+            cur = args[0]
+            acc = None
+            for _ in range(100000):
+                cur, item = iter_next(it, cur, term, caller, depth)
+                if item.variant == 0:
+                    break
+                v = item.fields[0]
+                acc = v if acc is None else bv.binop("Add", acc, v)
+            if acc is None:
+                iti = it.int_of_ty(dest_ty) or (64, False, "int")
+                return Int(iti[0], iti[1], val=0)
+            return acc
         if name == "count" and args and isinstance(args[0], IterV):
             cur = args[0]
             n = 0
